@@ -2,9 +2,9 @@ from vlib import Obl, PORTFOLIO
 
 TITLE = 'Summaries and statistics describe exactly the samples that were written'
 LEVEL_TEXT = ('bounded symbolic verification of the real per-level reductions (wr_fsr.c jls_core_fsr_summary1/summaryN, datatype.c) at the file-layer seam: min/max and NaN handling '
-              'exact for arbitrary sample values per data type; mean/std bit-equal to the reference formula on a small value grid; index/timestamp bookkeeping')
+              'exact for arbitrary sample values per data type; index/timestamp bookkeeping')
 TRUSTED = ['cbmc 6.11 IEEE-754 encoding', 'reference reduction and independent sample decoding in harness/c02_summary.c', 'small decimation factors set directly in the definition (the code is generic in them)']
-OUTSIDE = ['floating-point error bounds of the property ("mean exact up to the precision of stored summaries", the std interval, "average of means equals the exact mean"): '
+OUTSIDE = ['mean and std VALUES of the entries (a bit-equality miter against the reference formula on an 8-value grid did not return in 960 s)', 'floating-point error bounds of the property ("mean exact up to the precision of stored summaries", the std interval, "average of means equals the exact mean"): '
            'sums of >= 10 terms with symbolic values do not return from any back end (see DESIGN)', 'reader-side window arithmetic of jls_core_fsr_statistics / fsr_statistics (O3 not built)',
            'decimation factors other than the small ones of the harness']
 EXPLANATION = ('L1: one block of NE*SDF samples with symbolic bytes per data type; a symbolic watched level-1 entry is compared with an independent reduction over its samples: '
@@ -34,7 +34,5 @@ def obligations(tier):
                      typed_calloc=True, flags=['--max-field-sensitivity-array-size', '1024'],
                      desc='level-2 reduction of 6 symbolic level-1 entries (%s summaries): min of minima, max of maxima, NaN handling, index/timestamps' % ('64-bit' if t in ('f64', 'i32') else '32-bit'),
                      bound='2 level-2 entries x 3 level-1 entries, all float bit patterns'))
-    o.append(Obl('L1_meanstd_grid_f32', 'c02_summary.c', units=['wr_fsr.c', 'datatype.c'], stubs=['log_stub.c', 'fp_stub.c'], defines=HOOKS + TYPES['f32'] + ['MODE_L1=1', 'GRID=1', 'SDF=3', 'NE=1'],
-                 unwind=12, timeout=to, backend=PORTFOLIO, tiers=('thorough',),
-                 desc='level-1 mean/std bit-equal to the reference formula, f32 samples on an 8-value grid', bound='1 entry x 3 samples on an 8-value grid'))
+    # L1 mean/std bit-equality on an 8-value grid (GRID mode of the harness): no verdict in 960 s on any back end -> not claimed
     return o
